@@ -107,6 +107,7 @@ class Analysis:
         self.reads = []        # integer reads from byte slices (A10)
         self.slices = []       # sub-slices taken (A10)
         self.derived = {}      # symbol -> symbols it was computed from
+        self.bitand = {}       # symbol -> (operand Lin, constant mask) for results of `x & MASK`
         self.dispatch = None
         self.force = None
         self.force_sym = None
@@ -412,6 +413,16 @@ class Analysis:
                     if x is not None and not ta["sg"]:
                         hi = min(hi, max(0, ub(x, self.iv)))
                 res = self.sym(name, (0 if not ta["sg"] else r[0], hi))
+                # remember `x & MASK` so that a later `== MASK` test can be read as x >= MASK, and so that rules can ask
+                # which mask a value went through
+                if la is not None and lb_ is not None and not ta["sg"]:
+                    # (the operand is path-dependent: kept in the state; the dict keeps the last one for rule queries)
+                    if lb_.is_const() and not la.is_const():
+                        self.bitand[name] = (la, lb_.c)
+                        st.store["and:" + name] = ("lin", la)
+                    elif la.is_const() and not lb_.is_const():
+                        self.bitand[name] = (lb_, la.c)
+                        st.store["and:" + name] = ("lin", lb_)
             elif base == "Shr" and lb_ is not None and lb_.is_const() and la is not None and not ta["sg"]:
                 hi = ub(la, self.iv)
                 lo = max(0, lb(la, self.iv))
@@ -457,6 +468,13 @@ class Analysis:
         elif op == "Eq":
             st.facts.add(a - b)
             st.facts.add(b - a)
+            # (x & M) == M  implies  x >= M   (unsigned)
+            for u, v in ((a, b), (b, a)):
+                if len(u.t) == 1 and u.c == 0 and u.t[0][1] == 1 and u.t[0][0] in self.bitand and v.is_const():
+                    m = self.bitand[u.t[0][0]][1]
+                    x = st.store.get("and:" + u.t[0][0])
+                    if v.c == m and x is not None and x[0] == "lin":
+                        st.facts.add(Lin.const(m) - x[1])
         elif op == "Ne":
             # x != c with x >= c known (e.g. unsigned != 0) tightens to x >= c+1
             if ub(b - a, self.iv) <= 0 or entails(st.facts, self.iv, b - a, 1):
